@@ -113,53 +113,87 @@ def rest(rep: Report, prog: Program) -> None:
     # failure class passed to the breaker
     rep.rule("R9.4", "failure class provenance: RetryExhaustedError -> exc.last_class or UNKNOWN; other exceptions -> classify_for_breaker(exc, self.retry) = retry.classifier when a retry exists else default_classifier; execute+retry -> outcome.last_class or UNKNOWN")
     UNKNOWN = ("enum", "ErrorClass", "UNKNOWN")
-    for cls in ("redress.policy.policy:Policy", "redress.policy.async_policy:AsyncPolicy"):
-        fi = prog.func(f"{cls}._handle_exhausted_call")
-        rep.analysed(fi.qual)
-        for p in engine(prog).paths(fi):
-            recs = [e for e in p.calls() if e.is_repo(":record_failure")]
-            rep.instance("R9.4", f"{fi.qual}")
-            want = ("bool", "or", (attr(("param", "exc"), "last_class"), UNKNOWN))
-            if len(recs) == 1 and recs[0].args[0] == ("param", "ctx") and recs[0].args[1] == want:
-                rep.ok("R9.4")
-            else:
-                rep.fail("R9.4", f"{fi.qual.split(':')[1]}|class", f"{fi.qual}: expected record_failure(ctx, exc.last_class or ErrorClass.UNKNOWN); found {[show(a) for e in recs for a in e.args]}", where=fi.where(), function=fi.qual)
-        fi = prog.func(f"{cls}._handle_exception_call")
-        rep.analysed(fi.qual)
-        n = 0
-        for p in engine(prog).paths(fi):
-            recs = [e for e in p.calls() if e.is_repo(":record_failure")]
-            for r in recs:
-                n += 1
-                rep.instance("R9.4", f"{fi.qual}|{show(r.args[1])[:50]}")
-                k = r.args[1]
-                good = k == UNKNOWN or (k[0] == "call" and str(k[2]).endswith(":classify_for_breaker"))
-                if good and k != UNKNOWN:
-                    cf = [e for e in p.calls() if e.is_repo(":classify_for_breaker")]
-                    good = len(cf) >= 1 and cf[0].args == [("param", "exc"), attr(("param", "self"), "retry")]
-                if good:
-                    rep.ok("R9.4")
-                else:
-                    rep.fail("R9.4", f"{fi.qual.split(':')[1]}|class", f"{fi.qual}: failure recorded with class {show(k)}; expected classify_for_breaker(exc, self.retry)", where=fi.where(), function=fi.qual, path=p.describe())
-        if n == 0:
-            raise AnalysisError(f"{fi.qual}: no record_failure site")
-        fi = prog.func(f"{cls}._execute_with_retry")
-        rep.analysed(fi.qual)
-        n = 0
-        for p in engine(prog).paths(fi):
-            for r in [e for e in p.calls() if e.is_repo(":record_failure")]:
-                k = r.args[1]
-                if k[0] == "call" and str(k[2]).endswith(":classify_for_breaker"):
-                    continue
-                if k == ("bool", "or", (attr(("param", "exc"), "last_class"), UNKNOWN)):
-                    continue
-                n += 1
-                rep.instance("R9.4", f"{fi.qual}|{show(k)[:50]}")
-                ok = k[0] == "bool" and k[1] == "or" and k[2][1] == UNKNOWN and k[2][0][0] == "attr" and k[2][0][2] == "last_class" and k[2][0][1][0] == "call" and "Retry.execute" in str(k[2][0][1][2])
-                if ok:
-                    rep.ok("R9.4")
-                else:
-                    rep.fail("R9.4", f"{fi.qual.split(':')[1]}|class", f"{fi.qual}: failure recorded with class {show(k)}; expected outcome.last_class or ErrorClass.UNKNOWN", where=fi.where(), function=fi.qual, path=p.describe())
+    # Decided at the public entry points with the policy's private helpers inlined (whether a handler body lives in
+    # `_handle_exhausted_call` or in the except clause itself makes no difference): every record_failure(ctx, K)
+    # reached on any path - handler paths included - takes K from its designated source.
+    from ..ctx import cfgs
+    from ..paths import PathEngine, default_inline
+
+    POLICY_CLASSES = ("redress.policy.policy:Policy", "redress.policy.async_policy:AsyncPolicy")
+    eng = PathEngine(prog, cfgs(prog))
+    base_inline = default_inline()
+
+    def inline(fn) -> bool:
+        if base_inline(fn):
+            return True
+        return fn.cls is not None and fn.cls.qual in POLICY_CLASSES and fn.name.startswith("_") and not fn.name.startswith("__")
+
+    eng.inline = inline
+
+    def raises(ev, cfg):
+        if ev.kind != "call":
+            return ()
+        if ev.callback() == "operation":
+            return ("OtherException", "AbortRetryError")
+        if ev.is_repo("Retry.call") or ev.is_repo("Retry.execute"):
+            return ("OtherException", "AbortRetryError", "RetryExhaustedError")
+        if ev.is_repo(":classify_for_breaker"):
+            return ("OtherException",)
+        return ()
+
+    RETRY = attr(("param", "self"), "retry")
+    n_sites = {"exhausted": 0, "classified": 0, "outcome": 0, "unknown": 0}
+    for cls in POLICY_CLASSES:
+        for meth in ("call", "execute"):
+            fi = prog.func(f"{cls}.{meth}")
+            rep.analysed(fi.qual)
+            seen: set = set()
+            for p in eng.paths(fi, raises=raises, key="r9.4"):
+                for r in [e for e in p.calls() if e.is_repo(":record_failure")]:
+                    k = r.args[1] if len(r.args) > 1 else r.kwargs.get("klass")
+                    site = (r.node.lineno, r.frames and r.frames[-1][1].lineno, show(k)[:60])
+                    problem = None
+                    if not r.args or not (isinstance(r.args[0], tuple) and (r.args[0][0] == "call" and "ExecutionContext.create" in str(r.args[0][2]))):
+                        problem = f"record_failure is applied to {show(r.args[0]) if r.args else '?'}, not to this call's ExecutionContext"
+                    elif k == UNKNOWN:
+                        kind = "unknown"
+                        # the constant is the fallback for a classifier that itself raised, nothing else
+                        if not any(e.kind == "exc" and "classify_for_breaker" in e.label for e in p.events):
+                            problem = "failure recorded with the constant class UNKNOWN although no classifier failed on this path"
+                    elif isinstance(k, tuple) and k[0] == "call" and str(k[2]).endswith(":classify_for_breaker"):
+                        kind = "classified"
+                        cf = [e for e in p.calls() if e.result == k]
+                        a0 = cf[0].args[0] if cf and cf[0].args else None
+                        a1 = cf[0].args[1] if cf and len(cf[0].args) > 1 else None
+                        retry_none = any(a == ("cmp", "is", RETRY, ("const", None)) and pol for a, pol, _ in p.conds)
+                        if not (isinstance(a0, tuple) and a0[0] == "exc"):
+                            problem = f"classify_for_breaker is applied to {show(a0)}, not to the exception being handled"
+                        elif a0[1] in ("RetryExhaustedError", "AbortRetryError"):
+                            problem = f"a {a0[1]} is classified as an ordinary failure"
+                        elif not (a1 == RETRY or (a1 == ("const", None) and retry_none)):
+                            problem = f"classify_for_breaker(exc, {show(a1)}): expected self.retry (the retry's own classifier decides)"
+                    elif isinstance(k, tuple) and k[0] == "bool" and k[1] == "or" and len(k[2]) == 2 and k[2][1] == UNKNOWN and k[2][0][0] == "attr" and k[2][0][2] == "last_class":
+                        src = k[2][0][1]
+                        if src[0] == "exc" and src[1] == "RetryExhaustedError":
+                            kind = "exhausted"
+                        elif src[0] == "call" and "Retry.execute" in str(src[2]):
+                            kind = "outcome"
+                        else:
+                            problem = f"failure class taken from {show(src)}.last_class; expected the RetryExhaustedError being handled / the retry outcome"
+                    else:
+                        problem = f"failure recorded with class {show(k)}; expected exc.last_class or UNKNOWN / classify_for_breaker(exc, self.retry) / outcome.last_class or UNKNOWN"
+                    if site in seen and not problem:
+                        continue
+                    seen.add(site)
+                    rep.instance("R9.4", f"{fi.qual}|{site[2]}|{site[0]}")
+                    if problem:
+                        rep.fail("R9.4", f"{fi.qual.split(':')[1]}|class|{problem[:40]}", f"{fi.qual}: {problem}", where=(r.cfg.func if r.cfg is not None else fi).where(r.node.ast), function=fi.qual, path=p.describe())
+                    else:
+                        n_sites[kind] += 1
+                        rep.ok("R9.4")
+    rep.extra["R9.4_sites"] = dict(n_sites)
+    if n_sites["exhausted"] < 4 or n_sites["classified"] < 4 or n_sites["outcome"] < 2:
+        raise AnalysisError(f"R9.4: record_failure sites found by source {n_sites}; expected >= 4 exhausted, >= 4 classified, >= 2 outcome")
     fi = prog.func("redress.policy.execution:classify_for_breaker")
     rep.analysed(fi.qual)
     for p in engine(prog).paths(fi):
